@@ -2,6 +2,7 @@ package props
 
 import (
 	"fmt"
+	"math"
 	"strings"
 	"sync"
 	"time"
@@ -304,7 +305,8 @@ func clipS(s string) string {
 	return s
 }
 
-var c11SplitLens = []int{-5, 0, 1, 12, 13, 14, 20, 50, 450, 1000}
+// (the most negative values: arithmetic on SplitLen must not wrap around)
+var c11SplitLens = []int{-5, 0, 1, 12, 13, 14, 20, 50, 450, 1000, math.MinInt, math.MinInt + 1, math.MinInt + 2, math.MinInt32, -1}
 
 func c11Text(r interface{ Intn(int) int }, eff int) (string, string) {
 	seps := []string{". ", ": ", "; ", ", ", "! ", "? ", "\" ", "' ", " "}
